@@ -25,10 +25,10 @@ type mapTok struct {
 var gammaAlphas = []float64{1e-6, 1e-3, 0.01, 0.0101, 0.5, 0.99}
 var offsetVals = []float64{0, math.NaN() /* default of the kind */, 1.5, -1234, 1e6}
 
+// gamma tokens stand for the SAME base for every kind (so that mappings of different kinds with identical
+// parameters are compared too): the base the logarithmic mapping derives from the token's accuracy
 func gammaFor(kind string, alpha float64) float64 {
-	// the base a constructor-from-accuracy uses, read off the real mapping (data, via ToProto)
-	m := MappingSpec{kind, alpha}.build()
-	return m.ToProto().Gamma
+	return MappingSpec{"log", alpha}.build().ToProto().Gamma
 }
 
 func defaultOffsetFor(kind string, alpha float64) float64 {
@@ -42,10 +42,7 @@ func buildTok(t mapTok, extraA []float64, extraO []float64) (mapping.IndexMappin
 	g := gammaFor(t.Kind, alpha)
 	o := offs[t.O-1]
 	if math.IsNaN(o) {
-		o = defaultOffsetFor(t.Kind, alpha)
-		if o == 0 {
-			o = 7 // the logarithmic mapping's default offset is 0, which is already token 1
-		}
+		o = 7.25 // (token 2: a non-zero offset shared by all kinds)
 	}
 	switch t.Kind {
 	case "log":
@@ -54,6 +51,41 @@ func buildTok(t mapTok, extraA []float64, extraO []float64) (mapping.IndexMappin
 		return mapping.NewLinearlyInterpolatedMappingWithGamma(g, o)
 	default:
 		return mapping.NewCubicallyInterpolatedMappingWithGamma(g, o)
+	}
+}
+
+// fromAccuracyConsistency: a mapping built from an accuracy equals (and behaves like) the one built from
+// the corresponding base and offset, for every kind
+func fromAccuracyConsistency(c *Ctx, rng *rand.Rand) {
+	for _, kind := range allMappingKinds {
+		for _, a := range append(append([]float64{}, gammaAlphas...), 0.05, 0.2, 0.9) {
+			m1 := MappingSpec{kind, a}.build()
+			p := m1.ToProto()
+			var m2 mapping.IndexMapping
+			var err error
+			switch kind {
+			case "log":
+				m2, err = mapping.NewLogarithmicMappingWithGamma(p.Gamma, p.IndexOffset)
+			case "linear":
+				m2, err = mapping.NewLinearlyInterpolatedMappingWithGamma(p.Gamma, p.IndexOffset)
+			default:
+				m2, err = mapping.NewCubicallyInterpolatedMappingWithGamma(p.Gamma, p.IndexOffset)
+			}
+			what := ""
+			if err != nil {
+				what = "constructor from base and offset failed: " + err.Error()
+			} else if !m1.Equals(m2) || !m2.Equals(m1) {
+				what = "not equal"
+			} else {
+				what = sameBehaviour(m1, m2, rng)
+			}
+			if what != "" {
+				c.report(&Violation{Pipeline: "mappingid", Case: map[string]interface{}{"kind": kind, "accuracy": a}, What: fmt.Sprintf("%s mapping built from accuracy %v vs from the corresponding base and offset: %s", kind, a, what), Tags: map[string]string{"outcome": "form"}})
+			}
+			if math.Abs(m1.RelativeAccuracy()-a) > 1e-9*a+1e-12 {
+				c.report(&Violation{Pipeline: "mappingid", Case: map[string]interface{}{"kind": kind, "accuracy": a}, What: fmt.Sprintf("%s mapping built with accuracy %v reports %v", kind, a, m1.RelativeAccuracy()), Tags: map[string]string{"outcome": "form"}})
+			}
+		}
 	}
 }
 
@@ -192,6 +224,7 @@ CHECK_DEADLOCK FALSE
 		built[t] = m
 		return m
 	}
+	fromAccuracyConsistency(c, rng)
 	var n, drift int64
 	var parseErr error
 	res := c.runTLC(TLCOpts{Module: "MappingId", Cfg: cfg, Purpose: "mapping identity", Constants: fmt.Sprintf("3 kinds x %d gamma tokens x %d offset tokens, all ordered pairs", ng, no),
@@ -228,16 +261,6 @@ CHECK_DEADLOCK FALSE
 						c.report(&Violation{Pipeline: "mappingid", Case: p, What: fmt.Sprintf("mapping %+v read back from its %s form is not equal to the original (%T vs %T)", p.A, name, r, ma), Tags: map[string]string{"outcome": "form"}})
 					} else if d := sameBehaviour(ma, r, rng); d != "" {
 						c.report(&Violation{Pipeline: "mappingid", Case: p, What: fmt.Sprintf("mapping %+v read back from its %s form maps differently: %s", p.A, name, d), Tags: map[string]string{"outcome": "form"}})
-					}
-				}
-				// built from an accuracy vs from the corresponding base and offset
-				defZero := p.A.G <= len(gammaAlphas) && defaultOffsetFor(p.A.Kind, gammaAlphas[p.A.G-1]) == 0
-				if p.A.G <= len(gammaAlphas) && ((p.A.O == 2 && !defZero) || (p.A.O == 1 && defZero)) {
-					fromAlpha := MappingSpec{p.A.Kind, gammaAlphas[p.A.G-1]}.build()
-					if !fromAlpha.Equals(ma) || !ma.Equals(fromAlpha) {
-						c.report(&Violation{Pipeline: "mappingid", Case: p, What: fmt.Sprintf("mapping built from accuracy %v is not equal to the one built from the corresponding base and offset", gammaAlphas[p.A.G-1]), Tags: map[string]string{"outcome": "form"}})
-					} else if d := sameBehaviour(ma, fromAlpha, rng); d != "" {
-						c.report(&Violation{Pipeline: "mappingid", Case: p, What: "mapping built from accuracy vs from base and offset: " + d, Tags: map[string]string{"outcome": "form"}})
 					}
 				}
 			} else if fb, ok := forms[p.B]; ok {
